@@ -344,28 +344,54 @@ def v4_never_policy(ctx):
     b = ctx.prog.one("storage::bitcask::Context::can_merge")
     f = fam_name(b)
     found = False
+    from pathauto import explore, witness
+
     sws = list(variant_switches(b, lambda o: (access_path(o) or "").endswith("merge.policy")))
-    # edges of a policy switch that exclude Never: a later policy test behind such an edge (the
-    # `if let Window` inside the non-Never arm) cannot see Never
-    excl = set()
+    never_edges, other_edges = set(), set()
     for bb, info in sws:
         for e in b.succ[bb]:
             labs = info["arms"].get(e.dst, [])
-            if labs and "Never" not in labs:
-                excl.add((e.src, e.dst))
-    for bb, info in sws:
-        if bb not in reach(b, [0], blocked_edges=lambda e: (e.src, e.dst) in excl and e.src != bb):
-            continue
-        for e in b.succ[bb]:
-            labs = info["arms"].get(e.dst, [])
-            if "Never" in labs:
+            if labs == ["Never"]:
+                never_edges.add((e.src, e.dst))
                 found = True
-                if len(labs) != 1:
-                    r.bad(f, "Never shares an arm with %s" % labs, where(b, bb))
-                    continue
-                rs = rets_from(b, e.dst)
-                good = bool(rs) and all(c == "const" and const_int(o) == 0 for c, o, rb in rs)
-                r.add(f, "MergePolicy::Never ⇒ false", good, where(b, bb), "" if good else "returns %s" % [origin_str(o) if o else c for c, o, rb in rs][:3])
+            elif labs and "Never" not in labs:
+                other_edges.add((e.src, e.dst))
+
+    def events(bb, e):
+        if e is None:
+            return []
+        k = (e.src, e.dst)
+        if k in never_edges:
+            return ["never"]
+        if k in other_edges:
+            return ["other"]
+        return []
+
+    def delta(s_, ev):
+        if ev == "never":
+            return "never" if s_ != "other" else "#prune"  # Never after not-Never on one path: infeasible
+        if ev == "other":
+            return "other" if s_ != "never" else "#prune"
+        return s_
+
+    def on_exit(s_, kind, rc, bb):
+        if kind == "return" and s_ == "never":
+            d = explore.last0
+            o = ret_origin(b, d)
+            if o is None or const_int(o) != 0:
+                return "policy Never, but can_merge returns %s" % (origin_str(o) if o is not None else "something other than false")
+        if kind == "return" and s_ is None and found:
+            # a return without any policy test: allowed only if some test exists on every path — reported below
+            return "returns without having examined the merge policy"
+        return None
+
+    if found:
+        vs = explore(b, None, events, delta, on_exit, follow=lambda e: e.kind != "unwind")
+        if vs:
+            for v in vs:
+                r.bad(f, "MergePolicy::Never ⇒ false", where(b, v.path[-1]), v.msg, witness(b, v))
+        else:
+            r.ok(f, "MergePolicy::Never ⇒ false", where(b, sws[0][0]), "%d policy test(s)" % len(sws))
     if not found:
         r.unrec(f, "switch on conf.merge.policy with a Never arm", short_span(b.span), "not found")
     # merge_on_interval: Never edge returns without reaching can_merge / merge
